@@ -389,7 +389,17 @@ func (c *certificateV2) fromTBSCertificate(t *TBSCertificate) error {
 }
 
 func (c *certificateV2) validate() error {
-	// Empty names are allowed
+	// The wire format requires Name ::= UTF8String (SIZE (1..253)) for the name and for every group,
+	// unmarshalDetails refuses anything else so we must not issue it either.
+	if len(c.details.name) == 0 || len(c.details.name) > MaxNameLength {
+		return NewErrInvalidCertificateProperties("name must be between 1 and %d bytes", MaxNameLength)
+	}
+
+	for _, g := range c.details.groups {
+		if len(g) == 0 || len(g) > MaxNameLength {
+			return NewErrInvalidCertificateProperties("groups must be between 1 and %d bytes: %q", MaxNameLength, g)
+		}
+	}
 
 	if len(c.publicKey) == 0 {
 		return ErrInvalidPublicKey
